@@ -435,6 +435,11 @@ def configs(tier, seed):
         for dims in ([1, 1], [2, 1]):
             jobs.append(("vf.props.dsl", "c09_generated", dict(generated=True, dims=dims, max_order=2, n_series=3, n_products=2, features=feats_all,
                                                                seeds=list(range(base + k, base + k + chunk)), schedule=["asc", "desc", "rand7"][(k // chunk) % 3])))
+    for name in HANDWRITTEN:
+        for dims in ([1, 1], [2, 1], [1, 1, 1]):
+            for sched in ("asc", "desc", "rand5"):
+                jobs.append(("vf.props.dsl", "c09_handwritten", dict(handwritten=True, program=name, dims=dims, max_order=3 if sum(dims) <= 2 else 2, schedule=sched)))
+        jobs.append(("vf.props.dsl", "c09_handwritten", dict(handwritten=True, program=name, dims=[1, 1], nparams=2, max_order=2, schedule="desc")))
     # the docstring's own example program
     jobs.append(("vf.props.dsl", "c09_docstring", dict(docstring=True, dims=[1, 1], max_order=2)))
     return jobs
@@ -478,4 +483,127 @@ def c09_docstring(cfg):
     scope_lib = dict(scope, use_linear_operator=np.zeros((nb, nb), dtype=bool))
     _compare(rec, dict(cfg, source=DOCSTRING_PROGRAM), fn, tables, dims, 1, scope_lib, scope, cfg["max_order"], "asc", "docstring-example:" + _classify(DOCSTRING_PROGRAM))
     rec.sample = {"config": cfg, "program": DOCSTRING_PROGRAM}
+    return rec
+
+
+# ------------------------------------------------------------------------------------------------
+# (c) hand-written programs whose `hermitian` declarations are TRUE (products X^dagger X, X^dagger B X), `lower`, nested calls
+
+HANDWRITTEN = {
+    "hermitian_products": '''def program():
+    with "X":
+        start = 0
+        "A"
+
+    with "Xd":
+        start = 0
+        "A".adj
+
+    with "B":
+        "A" + "A".adj
+
+    with "P2":
+        "Xd @ X" / 2 + "B"
+
+    with "P3":
+        "Xd @ B @ X" - "P2"
+
+    with "P4":
+        start = 0
+        "Xd @ B @ B @ X"
+        if diagonal:
+            f("Xd @ X")
+
+    with "Xd @ X":
+        hermitian
+
+    with "Xd @ B @ X":
+        hermitian
+
+    with "Xd @ B @ B @ X":
+        hermitian
+
+    return "P3", "P4"
+''',
+    "lower_and_markers": '''def program():
+    with "S":
+        start = 0
+        if lower:
+            -"A".adj
+        "A" + "A"
+
+    with "T":
+        start = "A_0"
+        antihermitian
+        if offdiagonal:
+            "S" - g("S")
+        if diagonal:
+            ("S" - "S".adj) / 2
+
+    with "R":
+        hermitian
+        if diagonal:
+            f(g("T")) + "S @ T"
+        if offdiagonal:
+            "T".adj / -3
+
+    with "S @ T":
+        pass
+
+    return "R"
+''',
+    "recurrence": '''def program():
+    with "W":
+        start = 0
+        hermitian
+        "Vd @ V" / -2
+
+    with "V":
+        start = 0
+        "A" + "W" + "V @ W" / 3
+
+    with "Vd":
+        start = 0
+        "A".adj + "W" + "V @ W".adj / 3
+
+    with "Vd @ V":
+        hermitian
+
+    with "V @ W":
+        pass
+
+    return "V", "W"
+''',
+}
+
+
+def c09_handwritten(cfg):
+    from pymablock.series import BlockSeries, zero
+
+    rec = Rec("C09", cfg)
+    dims = cfg["dims"]
+    nb = len(dims)
+    src = HANDWRITTEN[cfg["program"]]
+    fn = _make_function(src, "program")
+    tables = _inputs(["A"], dims, cfg.get("nparams", 1), cfg["max_order"])
+
+    def f(x, index):
+        x = x[index] if isinstance(x, (BlockSeries, dslref.SeriesView)) else x
+        return zero if x is zero else x * 2
+
+    def g(x, index):
+        if isinstance(x, (BlockSeries, dslref.SeriesView)):
+            x = x[(index[1], index[0], *index[2:])]
+            return zero if x is zero else symc.dagger(np.asarray(x, dtype=object))
+        return zero if x is zero else -x
+
+    scope = {"f": f, "g": g}
+    scope_lib = dict(scope, use_linear_operator=np.zeros((nb, nb), dtype=bool))
+    r_ = _compare(rec, dict(cfg, source=src), fn, tables, dims, cfg.get("nparams", 1), scope_lib, scope, cfg["max_order"], cfg.get("schedule", "asc"), f"handwritten:{cfg['program']}")
+    if r_ == "discarded":
+        rec.guard("handwritten_program_is_well_founded", False, "the reference found a cycle")
+    from .. import solver
+
+    rec.guard("assumptions_sat", solver.assumptions_sat() == "sat")
+    rec.sample = {"config": cfg, "program": src, "programs": 1}
     return rec
